@@ -12,6 +12,7 @@ from __future__ import annotations
 
 import argparse
 import copy
+import hashlib
 import json
 import os
 import random
@@ -57,6 +58,8 @@ def gen_config(index: int, vseed: int, mode: str) -> dict:
         d = rng.choice(["iban_registry", "bank_registry"])
         js = regmodel.json_names(cfg["fs"][d])
         pos = rng.choice(["first", "middle", "last"])
+        if pos == "middle" and len(js) < 3:
+            pos = "last"  # there is no middle file among fewer than three
         f = js[0] if pos == "first" else js[-1] if pos == "last" else js[len(js) // 2]
         cfg["fs"]["faults"] = [{"dir": d, "file": f, "kind": rng.choice(FAULT_KINDS), "frac": rng.random(),
                                 "position": pos if len(js) > 1 else "only"}]
@@ -156,7 +159,8 @@ def run_module_child(cfg: dict) -> dict:
     if d:
         res["violation"] = viol("bank-list-differs", f"effective bank list is not the name-ordered concatenation: {d}")
         return res
-    res["digest"] = core.jhash([want_iban, want_bank])
+    res["digest"] = hashlib.sha256(json.dumps([regmodel.strip_regex(got_iban), got_bank], sort_keys=True,
+                                              default=repr).encode()).hexdigest()  # of what the loader returned
     # (4) repeated get
     again_i, again_b = mod.get("iban"), mod.get("bank")
     if regmodel.first_diff(want_iban, regmodel.strip_regex(again_i)) or regmodel.first_diff(want_bank, again_b):
@@ -359,7 +363,8 @@ def run_e2e_child(cfg: dict) -> dict:
     if d:
         res["violation"] = viol("bank-list-differs", f"effective bank list is not the name-ordered concatenation: {d}")
         return res
-    res["digest"] = core.jhash([want_iban, want_bank])
+    res["digest"] = hashlib.sha256(json.dumps([got_iban, registry.get("bank")], sort_keys=True,
+                                              default=repr).encode()).hexdigest()  # of what the package holds
     rng = random.Random(cfg["check_seed"])
     # structures that an earlier file gave a country but the effective table no longer has
     names = regmodel.json_names(cfg["fs"]["iban_registry"])
@@ -562,7 +567,7 @@ def config_probes(cfg: dict) -> dict:
 
 
 def worker_task(task: dict) -> dict:
-    isolate.worker_guard(6000)
+    isolate.worker_guard()
     vseed, mode = task["vseed"], task["mode"]
     st = {"runs": 0, "mode": mode, "violations": [], "violation_count": 0, "probes": {}, "nontrivial": set(),
           "distinct": set(), "faults": {}, "fault_raised": {}, "samples": [], "digests": [], "fs_events": 0, "locales": {}}
@@ -910,7 +915,7 @@ def main() -> int:
     }
     if not args.no_evidence:
         evidence.write(PROP, args.tier, vseed, cov, wall, unlisted, [
-            "file names over [a-z0-9_] (+ '.v2.json' for v2 files) so that every reading of 'file-name order' coincides; non-v2 stems never end in 'v2'",
+            "file names over [a-z0-9_] plus '-', inner dots and (4 %) a leading dot, '.v2.json' for v2 files; 'file-name order' = code-point order of the whole name (what sorting Path objects gives); non-v2 stems never end in 'v2'",
             "no document contains a 'regex' key, no directory is empty, no file mixes list and dict",
             "under read faults only returned data is judged and only corruptions every loader can detect are injected",
             "a loader that reaches storage by a route the stub does not serve is HARNESS-ERROR, not a verdict",
@@ -919,7 +924,12 @@ def main() -> int:
     print(f"C18 {args.tier}: module={agg['module']} e2e={agg['e2e']} fault={agg['fault']} e2efault={agg['e2efault']} fresh={fresh_checked} "
           f"distinct={len(distinct)} nontrivial={len(nontrivial)} faults_fired={sum(faults.values())} "
           f"violations_seen={agg['violation_count']} unlisted_classes={unlisted} wall={wall:.1f}s")
-    return core.EXIT_VIOLATION if unlisted else core.EXIT_OK
+    if unlisted:
+        return core.EXIT_VIOLATION
+    if probes.get("tasks_cut_short_by_wall_clock_cap"):
+        raise core.HarnessError("incomplete exploration: the wall-clock safety cap cut tasks short; a truncated run is "
+                                "never reported as a pass (raise VERIF_WALL_CAP or lower --runs)")
+    return core.EXIT_OK
 
 
 if __name__ == "__main__":
